@@ -85,7 +85,8 @@ class JSONEncoder(json.JSONEncoder):
 
 def _load_docstring(obj_dict: dict) -> Docstring | None:
     if "docstring" in obj_dict:
-        return Docstring(**obj_dict["docstring"])
+        # Parsed sections (full dumps) are derived data: they are computed again on demand.
+        return Docstring(**{key: value for key, value in obj_dict["docstring"].items() if key != "parsed"})
     return None
 
 
@@ -284,6 +285,11 @@ def json_decoder(obj_dict: dict[str, Any]) -> dict[str, Any] | Object | Alias | 
         try:
             kind = Kind(obj_dict["kind"])
         except ValueError:
+            # Parsed docstring sections (full dumps) have a kind too: return them as is.
+            try:
+                ParameterKind(obj_dict["kind"])
+            except ValueError:
+                return obj_dict
             return _load_parameter(obj_dict)
         return _loader_map[kind](obj_dict)
 
